@@ -219,30 +219,37 @@ func walkFrames(b []byte) []frame {
 		}
 		f := frame{start: off, end: off + 8 + recLen + pad, recLen: recLen, pad: pad, typ: rec.Type, data: rec.Data,
 			rec: -1, typOff: -1, crcOff: -1, dlenOff: -1, dataOff: -1}
-		// envelope layout: 08 <type> 10 <crc> [1a <len> data]
+		// envelope layout: 08 <type> 10 <crc> [1a <len> data]; offsets are only recorded
+		// for envelopes of exactly that canonical shape
 		p := 0
 		base := off + 8
 		for p < len(body) {
 			tag := body[p]
 			p++
+			v, n := uvarint(body[p:])
+			if n <= 0 {
+				break
+			}
 			switch tag {
 			case 0x08:
-				_, n := uvarint(body[p:])
 				f.typOff, f.typEnd = base+int64(p), base+int64(p+n)
 				p += n
+				continue
 			case 0x10:
-				_, n := uvarint(body[p:])
 				f.crcOff, f.crcEnd = base+int64(p), base+int64(p+n)
 				p += n
+				continue
 			case 0x1a:
-				v, n := uvarint(body[p:])
+				if v > uint64(len(body)-p-n) {
+					break
+				}
 				f.dlenOff, f.dlenEnd = base+int64(p), base+int64(p+n)
 				p += n
 				f.dataOff, f.dataEnd = base+int64(p), base+int64(p)+int64(v)
 				p += int(v)
-			default:
-				p = len(body)
+				continue
 			}
+			break
 		}
 		out = append(out, f)
 		off = f.end
